@@ -841,7 +841,7 @@ func entityUIDScalars(lo, hi rune, name string) *core.Family {
 	n := (int64(hi-lo) + block) / block
 	return &core.Family{
 		Name: name,
-		Desc: fmt.Sprintf("every Unicode scalar value U+%04X..U+%04X in an entity id (alone and after \"a\\\"\"): EntityUID.MarshalCedar -> UnmarshalCedar and MarshalBinary -> UnmarshalBinary give back the same UID; String.MarshalCedar evaluates to the same string", lo, hi),
+		Desc: fmt.Sprintf("every Unicode scalar value U+%04X..U+%04X in an entity id (alone and after \"a\\\"\"): EntityUID.MarshalCedar -> UnmarshalCedar and MarshalBinary -> UnmarshalBinary give back the same UID; the Cedar renderings of a set of strings and of a record keyed by strings made of the same scalars parse and evaluate to an equal value", lo, hi),
 		N:    n,
 		Run: func(t *core.T, i int64) {
 			for r := lo + rune(i*block); r < lo+rune((i+1)*block) && r <= hi; r++ {
@@ -859,6 +859,41 @@ func entityUIDScalars(lo, hi rune, name string) *core.Family {
 					if err := back2.UnmarshalBinary(b); err != nil || back2 != u {
 						t.Fail(fmt.Sprintf("entityuid-binary-roundtrip:U+%04X", r), string(b), fmt.Sprintf("%q", id), fmt.Sprint(back2, err))
 					}
+				}
+			}
+			// String / Set / Record renderings of the same scalars evaluate to an equal value
+			var strs []types.Value
+			rm := types.RecordMap{}
+			var cur []rune
+			flush := func() {
+				if len(cur) > 0 {
+					strs = append(strs, types.String(string(cur)))
+					rm[types.String(string(cur))] = types.String(string(cur))
+					cur = nil
+				}
+			}
+			for r := lo + rune(i*block); r < lo+rune((i+1)*block) && r <= hi; r++ {
+				if utf8.ValidRune(r) {
+					cur = append(cur, r)
+					if len(cur) == 16 {
+						flush()
+					}
+				}
+			}
+			flush()
+			for _, v := range []types.Value{types.NewSet(strs...), types.NewRecord(rm)} {
+				if len(strs) == 0 {
+					break
+				}
+				text := "permit(principal, action, resource) when { " + string(v.MarshalCedar()) + " == context.v };"
+				ps, err := cedar.NewPolicySetFromBytes("s.cedar", []byte(text))
+				if err != nil {
+					t.Fail("value-rendering-does-not-parse", fmt.Sprintf("block U+%04X: %.200s", lo+rune(i*block), text), "parses", err.Error())
+					continue
+				}
+				d, dg := cedar.Authorize(ps, types.EntityMap{}, cedar.Request{Context: types.NewRecord(types.RecordMap{"v": v})})
+				if d != cedar.Allow {
+					t.Fail("value-rendering-evaluates-differently", fmt.Sprintf("block U+%04X: %.200s", lo+rune(i*block), text), "evaluates to a value equal to the original", fmt.Sprint(d, dg.Errors))
 				}
 			}
 			t.Nontrivial()
